@@ -8,3 +8,15 @@ fn canary_must_fail() {
     // false claim: every name that is_on accepts has length 3
     if util::is_on(&a) { assert!(a.len() == 2, "canary: deliberately false postcondition"); }
 }
+
+#[derive(Clone)] struct NC(u32);
+#[kani::proof] #[kani::unwind(5)] #[kani::stub(std::ptr::drop_in_place, no_drop)] #[kani::stub(core::ptr::drop_glue, no_glue)] #[kani::stub(std::vec::Vec::extend_from_slice, extend_from_slice_model)]
+fn guard_model_selfcheck() {
+    let mut v: Vec<NC> = Vec::new();
+    let src = [NC(1), NC(2)];
+    v.extend_from_slice(&src);
+    assert!(v.len() == 2, "A-DROP self-check: Vec::extend_from_slice publishes its length (SetLenOnDrop emulated with the right field layout)");
+    let w: Vec<NC> = Vec::new();
+    assert!(v[0].0 == 1 && v[1].0 == 2, "A-DROP self-check: contents intact, in order");
+    std::mem::forget(v); std::mem::forget(w);
+}
